@@ -177,6 +177,26 @@ def cbImm11 (S : Int) (data : List Nat) (P : Int) : Except Err (List Nat) := do
   let rel20 ← wrapNegative (offset / 2) 20
   Riscv.jScatter data rel20
 
+/-- `isinsrange(bits, val)`: `val <= (msb - 1) and val >= -msb` with `msb = 1 << (bits - 1)` -/
+def isinsrange (bits : Nat) (val : Int) : Bool := decide (val ≤ 2 ^ (bits - 1) - 1 ∧ val ≥ -(2 ^ (bits - 1)))
+
+/-- `CBImm11Relocation.can_shrink` = `CBlImm11Relocation.can_shrink` (linker relaxation test: may the 32-bit
+    `j` / `jal ra` be replaced by `c.j` / `c.jal`?) -/
+def canShrink (S P : Int) : Except Err Bool := do
+  assert (S % 2 == 0)
+  assert (P % 2 == 0)
+  let offset := S - P
+  pure (isinsrange 12 offset)
+
+/-- `do_shrink`: `bv[0:2] = 0b01; bv[13:16] = opc` (0b101 C.J, 0b001 C.JAL); `data = data[:2]`; the new relocation is
+    `bc_imm11` at the same site -/
+def doShrink (opc : Nat) (S : Int) (data : List Nat) (P : Int) : Except Err (List Nat) := do
+  assert (S % 2 == 0)
+  assert (P % 2 == 0)
+  let d ← bvSet data 4 0 2 1
+  let d ← bvSet d 4 13 16 opc
+  pure (d.take 2)
+
 /-- `apply_cool_mapping(bv, rel11)` (C.J / C.JAL offset scatter) -/
 def coolMapping (data : List Nat) (rel11 : Int) : Except Err (List Nat) := do
   let d ← bvSet data 4 2 3 (rel11 / 16 % 2)
@@ -360,6 +380,8 @@ def apply (isa name : String) (addend : Int) (S : Int) (data : List Nat) (P : In
   | "riscv", "AbsAddr32Relocation" => some (Riscv.absAddr32 S data P)
   | "riscv", "cb_imm11" => some (Rvc.cbImm11 S data P)
   | "riscv", "cbl_imm11" => some (Rvc.cbImm11 S data P)
+  | "riscv", "shrink_cb_imm11" => some (Rvc.doShrink 5 S data P)      -- not relocation names: do_shrink of the two classes
+  | "riscv", "shrink_cbl_imm11" => some (Rvc.doShrink 1 S data P)
   | "riscv", "bc_imm11" => some (Rvc.bcImm11 S data P)
   | "riscv", "bc_imm8" => some (Rvc.bcImm8 S data P)
   | "arm", "rel8" => some (Arm.rel8 S data P)
